@@ -732,8 +732,11 @@ def retain_item(I, st, item, clo):
     if item[0] == 'elem':
         cell = ('static', 'ret:%d' % next(I.frame_counter))
         st.store[cell] = item[1]
-        keep, st = I.call_closure(st, clo, [Ref(cell)])
-        return I.cond_item(keep.bits[0], item), st
+        keep, st2 = I.call_closure(st, clo, [Ref(cell)])
+        if st2 is None or keep is BOTTOM:
+            # evaluating the predicate on this element diverges (recorded as a panic site): nothing is retained
+            return None, st
+        return I.cond_item(keep.bits[0], item), st2
     if item[0] == 'cond':
         y, st = retain_item(I, st, item[2], clo)
         if y is None:
@@ -742,8 +745,10 @@ def retain_item(I, st, item, clo):
     if item[0] == 'bulk':
         cell = ('static', 'ret:%d' % next(I.frame_counter))
         st.store[cell] = item[2]
-        keep, st = I.call_closure(st, clo, [Ref(cell)])
-        return ('filtered', keep.bits[0], item), st
+        keep, st2 = I.call_closure(st, clo, [Ref(cell)])
+        if st2 is None or keep is BOTTOM:
+            return None, st
+        return ('filtered', keep.bits[0], item), st2
     raise from_undecided()('retain item')
 
 
